@@ -66,6 +66,10 @@ def iop(op, i):
         return '(IPause %s %s)' % (c, 'true' if op['paused'] else 'false')
     if k == 'transferOp':
         return '(ITransferOp %s %s)' % (c, H(op['a']))
+    if k == 'proposeOp':
+        return '(IProposeOp %s %s)' % (c, H(op['a']))
+    if k == 'acceptOp':
+        return '(IAcceptOp %s %s)' % (c, H(op['a']))
     raise ValueError(k)
 
 def expect(res, i):
